@@ -99,7 +99,23 @@ type Worker struct {
 	eng         *Engine
 	sol         *Solver
 	sol2        *Solver // second solver (thorough tier): every unsat of an assertion query is re-asked
+	retry       *Solver // started on the first "unknown": z3 5.1.0 from scratch with a 10-minute limit
 	solverFresh bool
+}
+
+// retrySolver: a query the primary solver gave up on (its per-query time limit, typically on a loaded
+// machine) is asked once more of z3 5.1.0, from scratch, with a longer limit.
+func (w *Worker) retrySolver() *Solver {
+	if w.retry == nil {
+		s, err := newSolver([]string{"z3-new", "-in", "-t:600000"})
+		if err != nil {
+			return nil
+		}
+		s.Fresh = true
+		s.IntMode = w.eng.solverInt
+		w.retry = s
+	}
+	return w.retry
 }
 
 func (e *Engine) skipInit(path string) bool {
@@ -241,6 +257,11 @@ func (e *Engine) explore(harness *ssa.Function, workers int) *RunResult {
 		go func() {
 			defer wg.Done()
 			defer w.sol.Close()
+			defer func() {
+				if w.retry != nil {
+					w.retry.Close()
+				}
+			}()
 			w.loop(harness)
 			e.mu.Lock()
 			e.res.Queries += w.sol.Queries
